@@ -352,7 +352,11 @@ def apply_op(v, op, operand):
     if name == 'assign':
         if mut:
             v.assign_str(op['t'])
-        return v
+            return v
+        # the immutable class has no assign_str: the same value is reached through a mutable copy
+        c = AnsiString(v)
+        c.assign_str(op['t'])
+        return AnsiStr(c)
     if name == 'replace':
         old_ = v.base_str if isinstance(op['old'], dict) else op['old']   # {'whole': True}: the receiver's whole text
         return v.replace(old_, operand(op['new']), op.get('n', -1), **kw)
